@@ -264,3 +264,129 @@ func runE2ERace(rounds int) *e2eRaceOut {
 	}
 	return out
 }
+
+// ---- end-to-end variant on VIRTUAL channels: every writer holds 1-3 virtual channels
+// with per-channel authorities; a second writer may take over only some of them. The
+// observable is the authorized flag of every (Sync) write, for frames listing the
+// channels in any order.
+
+type e2evOp struct {
+	Op    string   `json:"op"` // open | write | set | close
+	W     int      `json:"w"`
+	Subj  int      `json:"subj"`
+	Chans [][2]int `json:"chans"` // open/set: (channel 1..3, authority)
+	Keys  []int    `json:"keys"`  // write: channels in frame order
+	Eou   bool     `json:"eou"`
+}
+
+type e2evCase struct {
+	Ops []e2evOp `json:"ops"`
+}
+
+func vkey(k int) cesium.ChannelKey { return cesium.ChannelKey(100 + k) }
+
+func runE2EV(c *e2evCase) *e2eOut {
+	out := &e2eOut{Read: []int64{}}
+	ctx := context.Background()
+	db, err := cesium.Open(ctx, "", cesium.WithFS(xfs.NewMem()))
+	if err != nil {
+		panic(err)
+	}
+	defer func() { _ = db.Close() }()
+	for k := 1; k <= 3; k++ {
+		if err := db.CreateChannel(ctx, cesium.Channel{
+			Key: vkey(k), Name: "cmd" + strconv.Itoa(k), DataType: telem.Uint8T, Virtual: true,
+		}); err != nil {
+			panic(err)
+		}
+	}
+	writers := map[int]*cesium.Writer{}
+	used := map[int]bool{}
+	split := func(ch [][2]int) ([]cesium.ChannelKey, []xcontrol.Authority) {
+		ks := make([]cesium.ChannelKey, len(ch))
+		as := make([]xcontrol.Authority, len(ch))
+		for i, p := range ch {
+			ks[i], as[i] = vkey(p[0]), xcontrol.Authority(p[1])
+		}
+		return ks, as
+	}
+	for _, o := range c.Ops {
+		st := e2eStep{St: "ok", Auth: 2, TS: []int64{}}
+		switch o.Op {
+		case "open":
+			if used[o.W] {
+				st.St = "skip"
+				break
+			}
+			used[o.W] = true
+			ks, as := split(o.Chans)
+			eou := o.Eou
+			w, err := db.OpenWriter(ctx, cesium.WriterConfig{
+				Channels:          ks,
+				Start:             10 * telem.SecondTS,
+				Authorities:       as,
+				ControlSubject:    xcontrol.Subject{Key: "s" + strconv.Itoa(o.Subj)},
+				Sync:              new(true),
+				ErrOnUnauthorized: &eou,
+			})
+			if err != nil {
+				st.St = errClass(err)
+				st.Err = err.Error()
+				break
+			}
+			writers[o.W] = w
+		case "write":
+			w, ok := writers[o.W]
+			if !ok {
+				st.St = "skip"
+				break
+			}
+			ks := make([]cesium.ChannelKey, len(o.Keys))
+			ss := make([]telem.Series, len(o.Keys))
+			for i, k := range o.Keys {
+				ks[i], ss[i] = vkey(k), telem.NewSeriesV[uint8](uint8(i+1))
+			}
+			auth, err := w.Write(telem.MultiFrame(ks, ss))
+			if err != nil {
+				st.St = "err"
+				st.Err = err.Error()
+				break
+			}
+			st.Auth = 0
+			if auth {
+				st.Auth = 1
+			}
+		case "set":
+			w, ok := writers[o.W]
+			if !ok {
+				st.St = "skip"
+				break
+			}
+			ks, as := split(o.Chans)
+			if err := w.SetAuthority(cesium.WriterConfig{Channels: ks, Authorities: as}); err != nil {
+				st.St = "err"
+				st.Err = err.Error()
+			}
+		case "close":
+			w, ok := writers[o.W]
+			if !ok {
+				st.St = "skip"
+				break
+			}
+			delete(writers, o.W)
+			if err := w.Close(); err != nil {
+				st.St = "err"
+				st.Err = err.Error()
+			}
+		default:
+			st.St = "skip"
+		}
+		out.Steps = append(out.Steps, st)
+	}
+	for id, w := range writers {
+		if err := w.Close(); err != nil {
+			out.Err += fmt.Sprintf("close %d: %v; ", id, err)
+		}
+	}
+	return out
+}
